@@ -32,6 +32,7 @@ From BT Require Import Base.ListX.
 From BT Require SMSelect.SMSelectModel.
 
 Local Open Scope N_scope.
+Set Implicit Arguments.
 
 (* ---- byte helpers ---- *)
 Definition len (b : list N) : N := N.of_nat (length b).
@@ -225,7 +226,7 @@ Definition lesc_local_io_caps (c : smcfg) : list N := [local_io c; 0; N.lor (aut
 
 (* request_oob_data_presents_for_remote_device: the user's handler has data for peers with an even address byte *)
 Definition request_oob (c : smcfg) (s : state) : state :=
-  if c_oob c then set_oob_present s (N.even (peer s)) else s.
+  set_oob_present s (if c_oob c then N.even (peer s) else oob_present s).
 (* get_oob_data_for_last_remote_device *)
 Definition oob_tk (c : smcfg) : list N := if c_oob c then k_oob K else zeros 16.
 
@@ -555,3 +556,40 @@ Fixpoint run_state (c : smcfg) (s : state) (ops : list op) : state :=
   end.
 
 End SM.
+
+(* the data base type is inferred from the state *)
+Arguments dead {DB}.
+Arguments oob_present {DB}.
+Arguments rctr {DB}.
+Arguments passkey_in {DB}.
+Arguments resp_pending {DB}.
+Arguments bonds {DB}.
+Arguments st {DB}.
+Arguments peer {DB}.
+Arguments encrypted {DB}.
+Arguments link_status {DB}.
+Arguments lalg {DB}.
+Arguments salg {DB}.
+Arguments leg {DB}.
+Arguments les {DB}.
+Arguments ltk {DB}.
+Arguments pstatus {DB}.
+Arguments dist {DB}.
+Arguments set_dead {DB}.
+Arguments set_oob_present {DB}.
+Arguments set_rctr {DB}.
+Arguments set_passkey_in {DB}.
+Arguments set_resp_pending {DB}.
+Arguments set_bonds {DB}.
+Arguments set_st {DB}.
+Arguments set_peer {DB}.
+Arguments set_encrypted {DB}.
+Arguments set_link_status {DB}.
+Arguments set_lalg {DB}.
+Arguments set_salg {DB}.
+Arguments set_leg {DB}.
+Arguments set_les {DB}.
+Arguments set_ltk {DB}.
+Arguments set_pstatus {DB}.
+Arguments set_dist {DB}.
+Arguments mk {DB}.
